@@ -1969,11 +1969,14 @@ class unyt_array(np.ndarray):
                     # binary operation would need to scan over all the
                     # elements of both arrays to check for arrays filled
                     # with zeros
-                    if not isinstance(i0, unyt_array) or not isinstance(i1, unyt_array):
+                    # (a list or tuple of quantities carries units like an array does)
+                    if not isinstance(inp0, unyt_array) or not isinstance(
+                        inp1, unyt_array
+                    ):
                         any_nonzero = [np.count_nonzero(i0), np.count_nonzero(i1)]
-                        if any_nonzero[0] == 0 and not isinstance(i0, unyt_array):
+                        if any_nonzero[0] == 0 and not isinstance(inp0, unyt_array):
                             u0 = u1
-                        elif any_nonzero[1] == 0 and not isinstance(i1, unyt_array):
+                        elif any_nonzero[1] == 0 and not isinstance(inp1, unyt_array):
                             u1 = u0
                     if not u0.same_dimensions_as(u1):
                         if unit_operator is _comparison_unit:
